@@ -15,7 +15,7 @@ sys.path.insert(0, os.path.dirname(os.path.abspath(__file__)))
 import common, refcheck
 
 THEOREMS = ["Nmfu.C07_language_exact", "Nmfu.Rx.accepts_iff", "Nmfu.Rx.dead_iff_no_extension", "Nmfu.Rx.alive_iff",
-            "Nmfu.C01_machine_refines_reference"]
+            "Nmfu.C01_machine_refines_reference", "Nmfu.C07_match_consumes", "Nmfu.C07_match_lookahead_end", "Nmfu.C07_match_mismatch"]
 
 ATOMS = ["a", "b", "[ab]", "[^a]", ".", "\\d", "c"]
 SUFF = ["", "?", "*", "+", "{2}", "{1,2}", "{2,}"]
@@ -101,5 +101,5 @@ if __name__ == "__main__":
         progs.append({"name": f"rb-{i}", "src": f"parser {{\n  b/{random_binary_regex(rng)}/;\n}}\n", "args": ["-feof-support"], "feats": {}})
     for i, p in enumerate(progs):
         p["also_O3"] = (i % 4 == 0)
-    refcheck.run("C07", THEOREMS, "NmfuProps.C01", progs,
+    refcheck.run("C07", THEOREMS, "NmfuProps", progs,
                  "every regex AST up to 2 atoms (quick: a sample; thorough: plus 6000 of the three-atom ones) over {a,b,c,[ab],[^a],.,\\d} x {?,*,+,{2},{1,2},{2,}} (quick: a sample), random larger text regexes with classes / inverted sets / ranges, random binary regexes with high bytes; one-statement programs with EOF support; distinct accepted programs with at least 3 states")
